@@ -1,5 +1,6 @@
 import Oracle.Proto
 import Oracle.Mailbox
+import Oracle.Turns
 /-! Oracle suites of property C01 (shared with C02). -/
 namespace Oracle.C01
 
@@ -7,7 +8,8 @@ def suites : List (String × Suite) := [
   ("dispatchers", Oracle.Mailbox.dispatchSuite),
   ("mailbox-facts", Oracle.Mailbox.factsSuite),
   ("mailbox", Oracle.Mailbox.model),
-  ("mailbox-judge-c01", Oracle.Mailbox.judge true)
+  ("mailbox-judge-c01", Oracle.Mailbox.judge true),
+  ("turns-judge", Oracle.Turns.judge)
 ]
 
 end Oracle.C01
